@@ -38,12 +38,16 @@ Opts(s) == CASE s = 1 -> <<Opt(<<U, U, U>>, -1), Opt(<<U, U, U>>, -1)>>
              [] s = 3 -> <<Opt(<<R(T_DISCARD, 0, 0, ""), R(T_PATH, 0, 0, "/d/f"), PIPE_>>, -1), Opt(<<PIPE_, R(T_PARENT, 0, 0, ""), R(T_PARENT, 0, 0, "")>>, -1)>>
              \* the second thread starts a fork-mode child (no exec: the descriptor sweep alone decides what it holds)
              [] s = 4 -> <<Opt(<<PIPE_, PIPE_, PIPE_>>, -1), [Opt(<<U, U, U>>, -1) EXCEPT !.fork = TRUE, !.argv = FALSE]>>
+             \* the second thread's program does not exist: its start fails in the child and must clean up after ITSELF only
+             [] s = 5 -> <<Opt(<<PIPE_, PIPE_, PIPE_>>, -1), Opt(<<U, U, U>>, -1) @@ [prog |-> "/nonexistent"]>>
 
 K == [std |-> <<TRUE, TRUE, TRUE>>, hasInput |-> FALSE]
 RJ(r) == <<r.t, r.h, r.f, r.p>>
 \* (each thread also gives its child an extra environment entry of its own: C03 - the child gets the caller's entries plus
 \* exactly that one, and the caller's own environment is what it was when both calls have returned)
-StartCall(h, o) == [e |-> "call", fn |-> "start", h |-> h, argv |-> <<"/bin/c">>, term |-> 2, noargv |-> IF o.argv THEN 0 ELSE 1,
+Prog(o) == IF "prog" \in DOMAIN o THEN o.prog ELSE "/bin/c"
+Fails(o) == Prog(o) # "/bin/c"
+StartCall(h, o) == [e |-> "call", fn |-> "start", h |-> h, argv |-> <<Prog(o)>>, term |-> 2, noargv |-> IF o.argv THEN 0 ELSE 1,
                     o |-> [rin |-> RJ(o.rd[1]), rout |-> RJ(o.rd[2]), rerr |-> RJ(o.rd[3]), input |-> o.input,
                            envb |-> 0, envx |-> <<"T=" \o ToString(h)>>, fork |-> IF o.fork THEN 1 ELSE 0,
                            stop |-> <<<<3, -1>>, <<0, 0>>, <<0, 0>>>>]]
@@ -61,7 +65,8 @@ Script(s) ==
      [e |-> "call", fn |-> "new", h |-> 2], [e |-> "ret", r |-> 1],
      \* (each thread has its own signal mask, and has exactly that mask again when its call has returned: C12)
      [e |-> "conc", sched |-> s, threads |-> << <<StartCall(1, os[1])>>, <<StartCall(2, os[2])>> >>, masks |-> << <<10>>, <<12, 15>> >>,
-      exp |-> [rets |-> << <<1>>, <<1>> >>, kids |-> <<Kid(1, os[1]), Kid(2, os[2])>>, tmasks |-> << <<10>>, <<12, 15>> >>, penv |-> <<"P=1">>]],
+      exp |-> [rets |-> << <<1>>, <<IF Fails(os[2]) THEN -2 ELSE 1>> >>, mon |-> <<>>,
+               kids |-> <<Kid(1, os[1])>> \o (IF Fails(os[2]) THEN <<>> ELSE <<Kid(2, os[2])>>), tmasks |-> << <<10>>, <<12, 15>> >>, penv |-> <<"P=1">>]],
      [e |-> "call", fn |-> "destroy", h |-> 1], [e |-> "ret", r |-> 0, mon |-> <<>>],
      [e |-> "call", fn |-> "destroy", h |-> 2], [e |-> "ret", r |-> 0, mon |-> <<>>, nfd |-> 3, nalloc |-> 0] >>
 
